@@ -7,7 +7,7 @@ for d in sorted(glob.glob(os.path.join(HERE, "..", "benign", "*", "meta.json")))
     m = json.load(open(d)); n = os.path.basename(os.path.dirname(d))
     res = m.get("checks", {}).get("quick", {})
     rows.append("| %s | %s | %s | %s | %s |" % (n, m["property"], m["summary"].replace("|", "/")[:200], m.get("observable", "").replace("|", "/")[:160],
-                                             ", ".join("%s: exit %s" % (p, e) for p, e in sorted(res.items())) or "—"))
+                                             (", ".join("%s: exit %s" % (p, e) for p, e in sorted(res.items())) or "—") + ((" — " + m["note"].replace("|", "/")) if m.get("note") else "")))
 table = "| change | property | what was changed | what differs observably | quick check of the property |\n|---|---|---|---|---|\n" + "\n".join(rows)
 p = os.path.join(HERE, "..", "DESIGN.md")
 s = open(p).read()
